@@ -174,7 +174,7 @@ def judge_results(ctx, case):
     exact = not curved and all(rg.curve_is_exact(c) for c in ca + cb)
     try:
         with call_limit(180):
-            A, B = lib.build(sa), lib.build(sb)
+            A, B = oc.build_operand(sa, case.get("pre_a")), oc.build_operand(sb, case.get("pre_b"))
             R = oc.apply_op(op, A, B)
             kind = lib.kind_of(R)
             problems = validate(R, exact)
